@@ -58,6 +58,22 @@ CHECKS = {
    technique="trace validation of the callback protocol: handler entry/exit lines are spec steps of the monitor node in TreeTrace.tla (initialize once and first, with a listing the cache actor produced at or after readiness; each other callback takes the head of the monitor's subscription outbox and matches its type and object; entries and exits alternate; none after Done())",
    text='Monitor scenarios with healthy, slow and blocking handlers, closes at random points relative to readiness and in-flight events. TLC rejects overlapping callbacks, a callback that is not the next undelivered event, a callback before OnInitialize or before readiness or after Done(), an OnInitialize whose argument is not a cache listing, and events left undelivered at quiescence.',
    note="Trusted: TLC, the hook placement discipline (log after the own state change, before publishing it; guarded by the verif tag), the harness' consumers/observers, the stop-the-world quiescence barrier. Scenario choice is seeded (VERIF_SEED); the oracle is not."),
+ "C03": dict(cat="model_checking", engine="tree", design="5 C03, 3.2",
+   technique="trace validation with fault enumeration: relist-heavy scenarios (refresh 30-80 ms) under scripted watch faults {connect error, hang until cancelled, close, close-after-k, mute, dropped frame, duplicated frame, replay from an older version, status/bookmark/unknown/ERROR/nil/non-object frames} and list latencies / stale lists; TreeTrace.tla consumes the server's, lister's, watcher's, session's, controller's and cache's lines",
+   text="For every completed list TLC requires: the list the controller synced is one the fake server returned (in order), the cache after it is Sync(pre, list) by the kernel reference (no regress), the published events are the cache's delta and reach every subscriber in order; after the server goes quiet and two further list results were returned (one may have been in flight), the controller cache equals the accepted server content whatever the watch did; relisting must not stop; Close() must return.",
+   note='Trusted: TLC, the hook placement discipline (verif tag), the fake API server (every server-side step is a trace line and is itself consumed by the spec), the stop-the-world quiescence barrier; real time is used only for scripted latencies and generous deadlines (a miss is reported only through a spec-judged trace line).'),
+ "C04": dict(cat="model_checking", engine="tree", design="5 C04, 3.2",
+   technique="trace validation with fault enumeration, refresh period 1 h: scripted watch faults {server closes, Watch() fails k times, status/bookmark/unknown/ERROR frames, nil and non-object frames, close right after a burst} at random positions of the history, controller slowed by a slow filter around bursts; the watcher's and session's buffers are FIFO stages of TreeTrace.tla and the resume version is spec state",
+   text='TLC requires: every data frame becomes exactly one event of the matching type and object and non-data frames none (frame-mistranslated / frame-ignored), a reconnect resumes at the version of the last event the watcher received (resume-version) and keeps what was forwarded (stuck-at-quiescence if forwarded events never reach the controller), events are applied in order, watch faults never stop the controller, a stream is re-established within the scripted number of reconnect delays, and once a stream that has sent the whole history is connected the cache equals the server - with relists disabled.',
+   note='Trusted: TLC, the hook placement discipline (verif tag), the fake API server (every server-side step is a trace line and is itself consumed by the spec), the stop-the-world quiescence barrier; real time is used only for scripted latencies and generous deadlines (a miss is reported only through a spec-judged trace line).'),
+ "C13": dict(cat="model_checking", engine="tree", design="5 C13, 3.4",
+   technique='timed trace validation on the grid latency/period in {0, 1/2, 1, 2, 5} x consumption delay in {0, 1/2, 2}/4 periods, period in {40, 100} ms: the spec consumes srv.listcall / lister.delivered lines with their monotonic timestamps',
+   text="TLC requires: never two List calls in flight, each call no earlier than 0.9 period after the previous result was taken (lister.delivered is logged before the ticker is reset and the call is stamped at entry of the fake's List, so the measured gap can only over-estimate the real one), at least 7 lists within a budget of 7 x (1.2 period + latency + delay) + 2 s, and a shutdown at a seeded phase of the cycle that completes (Close returns, no goroutine left).",
+   note='Trusted: TLC, the hook placement discipline (verif tag), the fake API server (every server-side step is a trace line and is itself consumed by the spec), the stop-the-world quiescence barrier; real time is used only for scripted latencies and generous deadlines (a miss is reported only through a spec-judged trace line).'),
+ "C14": dict(cat="model_checking", engine="tree", design="5 C14, 3.2",
+   technique="trace validation with fault enumeration: the k-th list (k = 1..4) fails with {error, nil, non-list object, list of non-objects, context.Canceled while running}; watch faults as in C04; a subtree attached; the controller's final Done()/Error()/Ready() are a trace line",
+   text='TLC requires: after a failing list the controller stops by itself with a non-nil Error(), never becomes ready if it was the first list, and its whole subtree shuts down; a controller never stops without a failing list or a deliberate close (so watch faults are never fatal); a deliberate Close() reports no failure.',
+   note='Trusted: TLC, the hook placement discipline (verif tag), the fake API server (every server-side step is a trace line and is itself consumed by the spec), the stop-the-world quiescence barrier; real time is used only for scripted latencies and generous deadlines (a miss is reported only through a spec-judged trace line).'),
 }
 
 NOT_YET = {
@@ -99,8 +115,8 @@ def main():
              "serves_properties": ["C01", "C02"], "kind_free_text": "TLC model checking of the cache kernel + exhaustive transition recording from the real cache actor judged by TLC"},
             {"name": "filters", "path": "/verif/spec/Filters.tla /verif/spec/trace/FilterRecords.tla /verif/harness/filters.go /verif/tools/fam_filters.py",
              "serves_properties": ["C17", "C18", "C19"], "kind_free_text": "filter terms as data; real constructors/Accept/FiltersEqual recorded over an exhaustive term x object universe; TLC judges with the specification's evaluator"},
-            {"name": "tree", "path": "/verif/spec/trace/TreeTrace.tla /verif/spec/CacheKernel.tla /verif/harness/tree.go /verif/harness/tracer.go /verif/harness/fakeserver.go /verif/tools/fam_tree.py",
-             "serves_properties": ["C05", "C06", "C07", "C08", "C10", "C11", "C12", "C16"], "kind_free_text": "concurrent scenarios on the real code with verif hooks; every recorded line replayed as a step of the TLA+ trace specification by TLC"},
+            {"name": "tree", "path": "/verif/spec/trace/TreeTrace.tla /verif/spec/CacheKernel.tla /verif/harness/tree.go /verif/harness/ctl.go /verif/harness/tracer.go /verif/harness/fakeserver.go /verif/tools/fam_tree.py",
+             "serves_properties": ["C03", "C04", "C05", "C06", "C07", "C08", "C10", "C11", "C12", "C13", "C14", "C16"], "kind_free_text": "concurrent scenarios on the real code with verif hooks; every recorded line replayed as a step of the TLA+ trace specification by TLC"},
         ],
         "checks": checks,
         "not_applicable": na,
